@@ -5,6 +5,17 @@
    order (the order sort.Strings implements; the proofs are about integer node ids with < standing for it).
    Everything below the parsing works on ranks; messages show the trace's node indices again.
 
+   Several graphs: a case has four graph slots 0..3, all starting as NewGraph().  An operation written
+   (at g <op>) is applied to slot g, a bare operation to slot 0; (copy s d) is slots[d] = slots[s].Copy();
+   (sortd) is Toposort called on the graph ITSELF (it consumes the edges it walks), where (sort) sorts a
+   copy.  The model is a pure value, so the copy of a graph is the same model state once more; every slot has
+   its own model state, its own mirror (deep copy on `copy`) and is judged against them after every
+   operation.  The post-state of (sortd) is fst (Model.toposort st); on the mirror: every node of the
+   returned list loses its outgoing edges.  A slot whose state cannot be known any more (Toposort panicked,
+   the model result is SortPanic / SortUnspec / SortFuel, the destructive sort was outside the domain and
+   could not be compared, or its result was wrong) is marked lost: operations on it are only counted
+   (ops_on_lost_graph) until a copy from a known slot overwrites it.
+
    Two judges:
    * the extracted model + extracted oracles (wfb, cycle_ok), for every case with at most
      VERIF_C15_MODEL_LIMIT primitive operations (the model's association lists are quadratic);
@@ -44,6 +55,11 @@ type mirror = {
 
 let mirror_new () = { nodes = Hashtbl.create 64; edges = Hashtbl.create 64; dirty = Hashtbl.create 8; valid = true; adj = None }
 
+(* Graph.Copy on the mirror: independent tables *)
+let mirror_copy (m : mirror) = { nodes = Hashtbl.copy m.nodes; edges = Hashtbl.copy m.edges; dirty = Hashtbl.copy m.dirty; valid = m.valid; adj = None }
+
+let nslots = 4
+
 let mirror_apply (m : mirror) (p : prim) =
   m.adj <- None;
   match p with
@@ -66,6 +82,13 @@ let mirror_adj (m : mirror) : (int, int list) Hashtbl.t =
       m.adj <- Some a; a
 
 let succs adj x = try Hashtbl.find adj x with Not_found -> []
+
+(* what a destructive Toposort that returned the list l did to the edge set: every node it emitted lost its
+   outgoing edges (on failure the nodes that were never emitted keep theirs) *)
+let mirror_consume (m : mirror) (l : int list) =
+  let adj = mirror_adj m in
+  List.iter (fun a -> List.iter (fun b -> Hashtbl.remove m.edges (a, b)) (succs adj a)) l;
+  m.adj <- None
 
 (* Kahn counting: acyclic iff every node can be removed *)
 let mirror_acyclic (m : mirror) : bool =
@@ -153,54 +176,79 @@ let () =
     let obs = Array.of_list (args (field "obs" c)) in
     if Array.length ops_sx <> Array.length obs then failwith "ops/obs length";
     let arg s i = int_of_sx (List.nth (args s) i) in
-    let bulk_count s = match tag s with
-      | "addnodes" | "reindexes" -> arg s 1
-      | "addedges" | "rmedges" -> arg s 2
+    (* (at g <op>) = <op> on graph slot g; a bare operation is on slot 0 *)
+    let unwrap s = if tag s = "at" then (arg s 0, List.nth (args s) 1) else (0, s) in
+    let multi = Array.exists (fun s -> tag s = "at" || tag s = "copy") ops_sx in
+    let bulk_count s = match tag (snd (unwrap s)) with
+      | "addnodes" | "reindexes" -> arg (snd (unwrap s)) 1
+      | "addedges" | "rmedges" -> arg (snd (unwrap s)) 2
       | _ -> 1 in
     let total = Array.fold_left (fun acc s -> acc + bulk_count s) 0 ops_sx in
     let use_model = total <= model_limit in
     count (if use_model then "cases_model" else "cases_oracle_only");
-    let st = ref empty in
-    let mir = mirror_new () in
+    if multi then count "cases_several_graphs";
+    let st = Array.make nslots empty in
+    let mir = Array.init nslots (fun _ -> mirror_new ()) in
+    let wfb_cache = Array.make nslots None in
+    let lost = Array.make nslots false in
     let z r = z_of_int r in
+    let slot_ok g = if g < 0 || g >= nslots then failwith "graph slot out of range" in
+    let wfb_now g = match wfb_cache.(g) with Some b -> b | None -> let b = wfb st.(g) in wfb_cache.(g) <- Some b; b in
     (* one primitive mutating operation on both sides; returns the model's output when the model runs *)
-    let wfb_cache = ref None in
-    let wfb_now () = match !wfb_cache with Some b -> b | None -> let b = wfb !st in wfb_cache := Some b; b in
-    let prim (p : prim) : out option =
-      mirror_apply mir p; wfb_cache := None;
+    let prim g (p : prim) : out option =
+      mirror_apply mir.(g) p; wfb_cache.(g) <- None;
       if use_model then begin
         let o = match p with
           | PAddNode a -> OAddNode (z a) | PAddEdge (a, b) -> OAddEdge (z a, z b)
           | PRmEdge (a, b) -> ORemoveEdge (z a, z b) | PReindex a -> OReindex (z a) in
-        let (st', outs) = run !st [o] in
-        st := st'; Some (List.hd outs)
+        let (st', outs) = run st.(g) [o] in
+        st.(g) <- st'; Some (List.hd outs)
       end else None in
-    let query (o : op) : out option =
-      if use_model then Some (List.hd (snd (run !st [o]))) else None in
-    Array.iteri (fun i s ->
+    let query g (o : op) : out option =
+      if use_model then Some (List.hd (snd (run st.(g) [o]))) else None in
+    Array.iteri (fun i s0 ->
       let ob = obs.(i) in
-      let here () = Printf.sprintf "op#%d %s" i (string_of_sx s) in
+      let (g, s) = unwrap s0 in
+      slot_ok g;
+      let here () = Printf.sprintf "op#%d %s%s" i (string_of_sx s0) (if multi then Printf.sprintf " [graph %d]" g else "") in
       let r k = to_rank (arg s k) in
       let obs_int () = int_of_sx (List.hd (args ob)) in
       let shape () = mismatch id (here () ^ " observation shape " ^ (let t = string_of_sx ob in if String.length t > 200 then String.sub t 0 200 else t)) in
+      if tag s = "copy" then begin
+        (* slots[d] = slots[s].Copy(): the model state is a value, the copy is the same state once more *)
+        let sr = arg s 0 and d = arg s 1 in
+        slot_ok sr; slot_ok d;
+        count "copies";
+        (match tag ob with
+         | "u" ->
+             if sr <> d then begin
+               st.(d) <- st.(sr); mir.(d) <- mirror_copy mir.(sr); wfb_cache.(d) <- wfb_cache.(sr); lost.(d) <- lost.(sr)
+             end
+         | "panic" ->
+             (* the harness leaves the target as it was *)
+             if lost.(sr) then count "ops_on_lost_graph"
+             else propfail id (Printf.sprintf "op#%d %s Copy of graph %d panics" i (string_of_sx s0) sr ^ names_txt)
+         | _ -> shape ())
+      end else if lost.(g) then count "ops_on_lost_graph"
+      else
       match tag s with
       | "addnode" ->
-          (match prim (PAddNode (r 0)), tag ob with
+          (match prim g (PAddNode (r 0)), tag ob with
            | Some (RBool b), "b" -> if b <> bool_of_sx (List.hd (args ob)) then mismatch id (here () ^ " bool")
            | None, "b" -> ()
            | _ -> shape ())
       | "addedge" ->
-          (match prim (PAddEdge (r 0, r 1)), tag ob with
+          (match prim g (PAddEdge (r 0, r 1)), tag ob with
            | Some (RInt v), "i" -> if int_of_z v <> obs_int () then mismatch id (here () ^ " int")
            | None, "i" -> ()
            | _ -> shape ())
       | "rmedge" ->
-          (match prim (PRmEdge (r 0, r 1)), tag ob with
+          (match prim g (PRmEdge (r 0, r 1)), tag ob with
            | Some (RBool b), "b" -> if b <> bool_of_sx (List.hd (args ob)) then mismatch id (here () ^ " bool")
            | None, "b" -> ()
            | _ -> shape ())
       | "reindex" ->
-          (match prim (PReindex (r 0)), tag ob with
+          (match prim g (PReindex (r 0)), tag ob with
            | (Some RUnit | None), "u" -> ()
            | _ -> shape ())
       | "addnodes" | "reindexes" ->
@@ -208,7 +256,7 @@ let () =
           let agg = ref 0 in
           for k = 0 to cnt - 1 do
             let a = to_rank (wrap (from + k * step) md) in
-            match prim (if tag s = "addnodes" then PAddNode a else PReindex a) with
+            match prim g (if tag s = "addnodes" then PAddNode a else PReindex a) with
             | Some (RBool true) -> incr agg
             | _ -> ()
           done;
@@ -221,7 +269,7 @@ let () =
           let agg = ref 0 in
           for k = 0 to cnt - 1 do
             let a = to_rank (wrap (a0 + k * sa) md) and b = to_rank (wrap (b0 + k * sb) md) in
-            match prim (if tag s = "addedges" then PAddEdge (a, b) else PRmEdge (a, b)) with
+            match prim g (if tag s = "addedges" then PAddEdge (a, b) else PRmEdge (a, b)) with
             | Some (RInt v) -> agg := !agg + int_of_z v
             | Some (RBool true) -> incr agg
             | _ -> ()
@@ -230,7 +278,7 @@ let () =
            | "agg" -> if use_model && !agg <> obs_int () then mismatch id (here () ^ Printf.sprintf " aggregate of the results: model=%d" !agg)
            | _ -> shape ())
       | "children" | "parents" ->
-          (match query (if tag s = "children" then OChildren (z (r 0)) else OParents (z (r 0))), tag ob with
+          (match query g (if tag s = "children" then OChildren (z (r 0)) else OParents (z (r 0))), tag ob with
            | Some (RList l), "l" ->
                let gl = map_tr to_rank (ints_tr (List.hd (args ob))) in
                (* children: sorted by NAME = ascending rank; parents: the harness sorted the node indices, compare as sets *)
@@ -240,21 +288,32 @@ let () =
                (* independent: exactly the mirror's neighbours; children in ascending rank *)
                let gl = map_tr to_rank (ints_tr (List.hd (args ob))) in
                let want = Hashtbl.fold (fun (a, b) () acc -> if tag s = "children" then (if a = r 0 then b :: acc else acc)
-                                                            else (if b = r 0 then a :: acc else acc)) mir.edges [] in
+                                                            else (if b = r 0 then a :: acc else acc)) mir.(g).edges [] in
                let want = List.sort compare want in
                let gl = if tag s = "parents" then List.sort compare gl else gl in
                count "neighbour_lists_checked_by_mirror";
                if want <> gl then mismatch id (here () ^ " neighbour list differs from the mirror: impl=" ^ show_r gl)
            | _ -> shape ())
-      | "sort" ->
-          let dom_model = use_model && wfb_now () in
-          let dom_mirror = mir.valid && Hashtbl.length mir.dirty = 0 in
+      | "sort" | "sortd" ->
+          (* (sort): Toposort on copies of the graph (x5) and on 3 graphs rebuilt from the slot's operation history;
+             (sortd): Toposort on the graph itself, once.  Both are judged in the same way; (sortd) then moves the slot
+             to the state the destructive sort leaves behind. *)
+          let destructive = tag s = "sortd" in
+          let clean = ref true in
+          let mismatch id t = clean := false; mismatch id t in
+          let propfail id t = clean := false; propfail id t in
+          let mi = mir.(g) in
+          let dom_model = use_model && wfb_now g in
+          let dom_mirror = mi.valid && Hashtbl.length mi.dirty = 0 in
           if dom_mirror && use_model && not dom_model then
             mismatch id (here () ^ " a valid, clean operation sequence but wfb = false (contradicts C15_domain_reached: model or mirror wrong)");
-          let mres = match query OSort with Some (RSort x) -> Some x | Some _ -> failwith "sort result" | None -> None in
+          let mpost = if use_model then Some (toposort st.(g)) else None in
+          let mres = match mpost with Some (_, x) -> Some x | None -> None in
           (match tag ob with
-           | "sorted" | "panic" | "nondet" -> ()
+           | "sorted" | "panic" -> ()
+           | "nondet" when not destructive -> ()
            | _ -> shape ());
+          if destructive then count "sortd";
           if not dom_model && not dom_mirror then begin
             (* outside the property's domain (duplicate edges, unknown endpoints, missing re-index):
                only the correspondence with the model is checked *)
@@ -271,70 +330,93 @@ let () =
           end else begin
             count "sorts";
             if not use_model then count "sorts_oracle_only";
-            (match tag ob with
-             | "nondet" ->
-                 let t = string_of_sx ob in
-                 propfail id (here () ^ " Toposort answers differ between runs on equal graphs (same operation sequence): "
-                              ^ (if String.length t > 700 then String.sub t 0 700 ^ "..." else t) ^ names_txt)
-             | "panic" -> propfail id (here () ^ " Toposort panics on a graph of the domain" ^ names_txt)
-             | "sorted" ->
+            (* one answer (sorted ok (list)) against the property oracles; fine = also the exact order against the model *)
+            let judge_sorted (ob : sx) (fine : bool) (which : string) =
                  let gok = bool_of_sx (List.nth (args ob) 0) in
                  let gl = map_tr to_rank (ints_tr (List.nth (args ob) 1)) in
-                 if gok then count "sort_success" else count "sort_failure";
+                 if fine then (if gok then count "sort_success" else count "sort_failure");
                  (* acyclicity: the model's answer (C15_success_iff_acyclic) and/or the mirror's Kahn count *)
                  let acyc_model = match mres with
                    | Some (SortOk (_, mok)) when dom_model -> Some mok
-                   | Some _ when dom_model -> mismatch id (here () ^ " model result is not SortOk inside the domain"); None
+                   | Some _ when dom_model -> if fine then mismatch id (here () ^ " model result is not SortOk inside the domain"); None
                    | _ -> None in
-                 let acyc_mirror = if dom_mirror || not use_model then Some (mirror_acyclic mir) else None in
+                 let acyc_mirror = if dom_mirror || not use_model then Some (mirror_acyclic mi) else None in
                  (match acyc_model, acyc_mirror with
-                  | Some a, Some b when a <> b && dom_mirror -> mismatch id (here () ^ " independent acyclicity oracle disagrees with the model")
+                  | Some a, Some b when a <> b && dom_mirror -> if fine then mismatch id (here () ^ " independent acyclicity oracle disagrees with the model")
                   | _ -> ());
                  let acyclic = match acyc_model, acyc_mirror with Some a, _ -> a | None, Some b -> b | None, None -> failwith "no judge" in
                  (* order validity: on the model state's node and edge sets when the model runs, else on the mirror's *)
                  let valid_order =
                    if use_model then begin
-                     let edges_iter f = List.iter (fun (n, m) -> List.iter (fun (ch, _) -> f (int_of_z n) (int_of_z ch)) m) !st.outs in
+                     let edges_iter f = List.iter (fun (n, m) -> List.iter (fun (ch, _) -> f (int_of_z n) (int_of_z ch)) m) st.(g).outs in
                      let nodeset = Hashtbl.create 64 in
-                     List.iter (fun (n, _) -> Hashtbl.replace nodeset (int_of_z n) ()) !st.outs;
+                     List.iter (fun (n, _) -> Hashtbl.replace nodeset (int_of_z n) ()) st.(g).outs;
                      let v = order_ok_sets (Hashtbl.length nodeset) (Hashtbl.mem nodeset) edges_iter gl in
-                     if dom_mirror && v <> mirror_order_ok mir gl then mismatch id (here () ^ " independent order oracle disagrees with the one on the model state");
+                     if dom_mirror && v <> mirror_order_ok mi gl then mismatch id (here () ^ " independent order oracle disagrees with the one on the model state");
                      v
-                   end else mirror_order_ok mir gl in
+                   end else mirror_order_ok mi gl in
                  if gok && not valid_order then
-                   propfail id (here () ^ " success reported but the order is not a topological order of all nodes: " ^ show_r gl ^ names_txt)
+                   propfail id (here () ^ which ^ " success reported but the order is not a topological order of all nodes: " ^ show_r gl ^ names_txt)
                  else if gok <> acyclic then
-                   propfail id (here () ^ Printf.sprintf " success=%b but the graph is %s" gok (if acyclic then "acyclic" else "cyclic") ^ names_txt)
-                 else (match mres with
+                   propfail id (here () ^ which ^ Printf.sprintf " success=%b but the graph is %s" gok (if acyclic then "acyclic" else "cyclic") ^ names_txt)
+                 else if fine then (match mres with
                    | Some (SortOk (ml, _)) when dom_model ->
                        (* fine: the deterministic order (ties between ready nodes broken by byte order of the names) *)
                        let ml = List.map int_of_z ml in
                        if gl <> ml then mismatch id (here () ^ " order differs: impl=" ^ show_r gl ^ " model=" ^ show_r ml ^ names_txt)
-                   | _ -> ())
+                   | _ -> ()) in
+            (match tag ob with
+             | "nondet" ->
+                 (* two different answers: each is judged on its own first (a wrong answer says more than "they differ") *)
+                 List.iteri (fun k x -> match tag x with
+                   | "sorted" -> judge_sorted x false (if k = 0 then " (answer on a copy of the graph)" else " (answer of a later run)")
+                   | "panic" -> propfail id (here () ^ " Toposort panics on a graph of the domain (one of the repeated runs)" ^ names_txt)
+                   | _ -> ()) (args ob);
+                 let t = string_of_sx ob in
+                 propfail id (here () ^ " Toposort answers differ between runs on equal graphs (same operation sequence"
+                              ^ (if multi then "; copies of the graph and graphs rebuilt from the operation history of this graph, through the graphs it was copied from" else "") ^ "): "
+                              ^ (if String.length t > 700 then String.sub t 0 700 ^ "..." else t) ^ names_txt)
+             | "panic" -> propfail id (here () ^ " Toposort panics on a graph of the domain" ^ names_txt)
+             | "sorted" -> judge_sorted ob true ""
              | _ -> ())
+          end;
+          if destructive then begin
+            (* the state the destructive sort leaves behind.  It is known when the implementation's answer was
+               judged and found right: with the model, the model's own post-state (its result was compared equal);
+               without, only inside the domain.  Otherwise the slot is lost. *)
+            let known = !clean && tag ob = "sorted" &&
+              (if use_model then (match mres with Some (SortOk _) -> true | _ -> false) else dom_mirror) in
+            if known then begin
+              (match mpost with Some (st', _) -> st.(g) <- st' | None -> ());
+              mirror_consume mi (map_tr to_rank (ints_tr (List.nth (args ob) 1)));
+              wfb_cache.(g) <- None
+            end else begin
+              count "graphs_lost";
+              lost.(g) <- true
+            end
           end
       | "cycle" ->
           let seed = r 0 in
           (match tag ob with "cycle" -> () | _ -> shape ());
-          if use_model && is_node !st nobody then
+          if use_model && is_node st.(g) nobody then
             (* the empty name is FindCycle's sentinel; a graph that has it as a node is outside the domain *)
             count "cycles_outside_domain"
           else begin
             (* C15_cycle_real / C15_cycle_found / C15_cycle_emptiness_any_order hold for every state in which
                the empty name is not a node (no rank condition), so the oracle is applied there *)
-            count (if not use_model then "cycles_oracle_only" else if wfb_now () then "cycles" else "cycles_dirty_state");
+            count (if not use_model then "cycles_oracle_only" else if wfb_now g then "cycles" else "cycles_dirty_state");
             let gc = map_tr to_rank (ints_tr (List.hd (args ob))) in
-            let m_empty = match query (OCycle (z seed)) with Some (RCycleEmpty e) -> Some e | Some _ -> failwith "cycle result" | None -> None in
-            let exists_mirror = mirror_cycle_exists mir seed in
+            let m_empty = match query g (OCycle (z seed)) with Some (RCycleEmpty e) -> Some e | Some _ -> failwith "cycle result" | None -> None in
+            let exists_mirror = mirror_cycle_exists mir.(g) seed in
             (match m_empty with
              | Some e when e = exists_mirror -> mismatch id (here () ^ " independent reachability oracle disagrees with the model on the existence of a cycle through the seed")
              | _ -> ());
             let exists = match m_empty with Some e -> not e | None -> exists_mirror in
             if gc <> [] then begin
               count "cycle_nonempty";
-              let ok_mirror = mirror_cycle_ok mir seed gc in
+              let ok_mirror = mirror_cycle_ok mir.(g) seed gc in
               let ok = if use_model then begin
-                  let v = cycle_ok !st (z seed) (List.map z gc) in
+                  let v = cycle_ok st.(g) (z seed) (List.map z gc) in
                   if v <> ok_mirror then mismatch id (here () ^ " independent cycle oracle disagrees with the extracted cycle_ok");
                   v end else ok_mirror in
               if not ok then
